@@ -17,6 +17,11 @@ func (fr *frame) unop(instr *ssa.UnOp, x Value) Value {
 	w := fr.w
 	switch instr.Op {
 	case token.MUL: // load
+		if w.sched != nil && w.sched.race != nil {
+			if vp, ok := x.(*Value); ok {
+				w.raceAccess(fr, vp, false, instr.Pos())
+			}
+		}
 		return fr.load(derefType(instr.X.Type()), x, instr.Pos())
 	case token.ARROW:
 		return w.chanRecv(fr, x.(*Chan), instr.CommaOk, instr.Type(), instr.Pos())
